@@ -151,7 +151,7 @@ def cases(tier, seed):
                             continue
                         out.append(("dtype-grid", {"dom": dom, "grid": gv, "tf": tfp, **({"inv": True} if inv else {})}, 1.0))
     # (d) LARGE rules whose nodes crowd both ends (element-wise weight identity at every node, also the ones next to the ends)
-    big = [(r, n) for r in LARGE_RULES for n in LARGE_N]
+    big = [(r, n) for r in LARGE_RULES for n in LARGE_N if not (r == "GaussLegendre" and n == 1000)]  # leggauss(1000) alone takes 8 s
     j = 0
     for inv, kk in ((False, KINDS_M11), (True, INV_M11)):
         for kind in kk:
@@ -186,7 +186,21 @@ def cases(tier, seed):
 
 
 # ------------------------------------------------------------------------------------------------ building blocks
+_big_rules = {}
+
+
 def make_rule(name, n, rng=None):
+    import grid.onedgrid as og
+
+    if n >= 200 and name in LARGE_RULES + ["UniformInteger"]:
+        # parameter-free large rules are built once per worker (GaussLegendre(500) takes ~3 s); the library never mutates them
+        if (name, n) not in _big_rules:
+            _big_rules[(name, n)] = _make_rule(name, n, None)
+        return _big_rules[(name, n)]
+    return _make_rule(name, n, rng)
+
+
+def _make_rule(name, n, rng=None):
     import grid.onedgrid as og
 
     if name in ODD_ONLY and n % 2 == 0:
